@@ -1,0 +1,18 @@
+//go:build verif
+
+// Package verifhooks exists only under the build tag `verif`. It re-exports pieces of
+// internal packages so that the external verification harness can drive the real code.
+// With the tag off this package has no files and nothing in the module changes.
+package verifhooks
+
+import "github.com/awslabs/ar-go-tools/internal/funcutil"
+
+// MapParallel is internal/funcutil.MapParallel (the function itself, not a copy).
+func MapParallel[T any, S any](a []T, f func(T) S, numRoutines int) []S {
+	return funcutil.MapParallel(a, f, numRoutines)
+}
+
+// Map is internal/funcutil.Map, the sequential reference.
+func Map[T any, S any](a []T, f func(T) S) []S {
+	return funcutil.Map(a, f)
+}
